@@ -102,6 +102,11 @@ theorem gen_asp_structure :
     aspRowsSamplesIdx = 0 ∧ aspColsSamplesIdx = 1 ∧ aspIsIfft2OfFft2TimesTf = true ∧ freeSpaceDelegates = true := by
   decide
 
+/-- the returned transfer function is the outer product of the two exponentials at EVERY frequency sample: no element is
+overwritten, masked, clipped or selected after the exponential (so `asp_unit_modulus` speaks about every sample of the
+array the code returns, including the part of the band beyond `1/λ` at sub-wavelength sampling) -/
+theorem gen_asp_every_sample : aspTfAppliedToEverySample = true := by decide
+
 /-! ## orthogonality -/
 
 /-- root-of-unity orthogonality `Σ_{k<L} e(k·d/L) = L·[L ∣ d]`, derived from the character laws + faithfulness
